@@ -326,7 +326,18 @@ def _pickle_array_annotation(x: type["AbstractArray"]):
     if x is AbstractArray:
         return _return_abstractarray, ()
     else:
-        return x.dtype.__getitem__, ((x.array_type, x.dim_str),)
+        # `x.dtypes` may be narrower than `x.dtype.dtypes`, for annotations built by
+        # nesting, e.g. `Shaped[Float[Array, "a"], "b"]`. The any-dtype sentinel is
+        # compared by identity, so it is sent as `None`.
+        dtypes = None if x.dtypes is _any_dtype else x.dtypes
+        return _unpickle_array_annotation, (x.dtype, x.array_type, x.dim_str, dtypes)
+
+
+def _unpickle_array_annotation(dtype, array_type, dim_str, dtypes):
+    out = dtype[array_type, dim_str]
+    if dtypes is not None and out.dtypes != dtypes:
+        out.dtypes = dtypes
+    return out
 
 
 copyreg.pickle(_MetaAbstractArray, _pickle_array_annotation)
